@@ -42,6 +42,9 @@ def encode_out(o):
         elif isinstance(v, complex):
             r["value"] = repr(v)
             r["vtype"] = "complex"
+        elif isinstance(v, list) and all(isinstance(x, (int, float)) and not isinstance(x, bool) for x in v):
+            r["value"] = [float(x).hex() if x == x and x not in (float("inf"), float("-inf")) else repr(x) for x in v]
+            r["vtype"] = "numlist"
         elif isinstance(v, (str, list, dict, type(None))):
             r["value"] = v
             r["vtype"] = type(v).__name__
